@@ -13,7 +13,11 @@ for n in $NAMES; do
   d=seeded/$n
   [ -f "$d/patch.diff" ] || continue
   prop=$(python3 -c "import json;print(json.load(open('$d/meta.json'))['property'])" 2>/dev/null)
-  cs=${CHECKS:-"C01 C02 C03 C04 C05 C06 C07 C08 C09 C10 C11 C12 C13 C14"}
+  # default: the check of the property the change was written against plus the checks recorded in meta.json;
+  # CHECKS=all runs all fourteen
+  own=$(python3 -c "import json;m=json.load(open('$d/meta.json'));print(' '.join(sorted(set([m['property']]+m['detected_by_quick_checks']))))" 2>/dev/null)
+  cs=${CHECKS:-$own}
+  [ "$cs" = "all" ] && cs="C01 C02 C03 C04 C05 C06 C07 C08 C09 C10 C11 C12 C13 C14"
   git -C /repo checkout -- . && git -C /repo apply "$PWD/$d/patch.diff" || { echo "$n: patch does not apply"; continue; }
   hits=""
   for c in $cs; do
